@@ -235,8 +235,9 @@ def specJson (watch : List String) (w0 w' : World Content) (r : RunSpec) : Json 
 the reply lists one entry per run.  With `reuse` one pipeline object (state `st`) serves all runs and the
 template comes from the template file ("tpl", "tplm" = its modification time) through the object's cache;
 otherwise every run builds a new pipeline. -/
-def histLoop (reuse : Bool) (watch : List String) : PipeState → World Content → List Json → List Json → Option (List Json)
-  | _, _, [], acc => some acc.reverse
+def histLoop (reuse : Bool) (watch : List String) : PipeState → World Content → List Json → List Json →
+    Option (List Json × Option (World Content × List String))
+  | _, w, [], acc => some (acc.reverse, some (w, watch))
   | st, w, s :: rest, acc =>
     let dels := match (s.getObjVal? "del").toOption with
       | some ps => strList? ps
@@ -253,13 +254,49 @@ def histLoop (reuse : Bool) (watch : List String) : PipeState → World Content 
         | some r =>
           let w0 : World Content := { w with log := [] }
           let f : TplFile := ⟨r.tpl, (nat? (getD rj "tplm")).getD 0⟩
-          match runObject stubConv (if reuse then st else {}) w0 r f with
-          | .error e => some ((ofExc e :: acc).reverse)        -- the history stops at an exception
+          let interrupted := (bool? (getD s "interrupt")).getD false
+          let late : List Bool := ((arr? (getD s "late")).map fun a => a.toList.map fun x => (bool? x).getD false).getD []
+          let st0 : PipeState := if reuse then st else {}
+          let res : Except Exc (World Content × List (Val Content) × PipeState) :=
+            if interrupted then
+              -- Ctrl-C while LaTeXToPDF waits (`runSpecI`); the template comes through the cache as in `runObject`
+              let g := getTemplate st0 f
+              match runSpecI stubConv w0 { r with tpl := g.1 } late with
+              | .error e => .error e
+              | .ok (w', vs) => .ok (w', vs, if r.plots.isEmpty then st0 else g.2)
+            else runObject stubConv st0 w0 r f
+          match res with
+          | .error e => some ((ofExc e :: acc).reverse, none)  -- the history stops at an exception
           | .ok (w', vs, st') =>
             let watch' := (watch ++ pathsOfLog w'.log).eraseDups
             let r' : RunSpec := { r with tpl := (getTemplate (if reuse then st else {}) f).1 }
-            let out := (ofResult watch' w0.clock w' vs).setObjVal! "spec" (specJson watch' w0 w' r')
+            let out := (ofResult watch' w0.clock w' vs).setObjVal! "spec"
+              (if interrupted then Json.null else specJson watch' w0 w' r')
             histLoop reuse watch' st' w' rest (out :: acc)
+
+/-- the history as steps of the life of one pipeline object (`OStep`): an `edit` wherever the modification time of
+the template file moves on; `none` if a step is interrupted (not expressible) -/
+def ostepsOf : Nat → List Json → Option (List OStep)
+  | _, [] => some []
+  | m, s :: rest =>
+    if (bool? (getD s "interrupt")).getD false then none
+    else
+      let dels : List OStep := match (s.getObjVal? "del").toOption.bind strList? with
+        | some ps => [.del ps]
+        | none => []
+      match (s.getObjVal? "run").toOption with
+      | none => (ostepsOf m rest).map (dels ++ ·)
+      | some rj =>
+        match runSpec? rj with
+        | none => none
+        | some r =>
+          let m' := (nat? (getD rj "tplm")).getD 0
+          let ed : List OStep := if m' = m then [] else [.edit r.tpl]
+          (ostepsOf m' rest).map (dels ++ ed ++ [.run r] ++ ·)
+
+/-- file systems agree on the paths, clocks agree (the logs of `exec`/`oexec` run over the whole history) -/
+def fsAgree (paths : List String) (a b : World Content) : Bool :=
+  decide (a.clock = b.clock) && paths.all fun p => decide (a.fs p = b.fs p)
 
 /-- `get_template` called for a sequence of states of the template file by one RenderLaTeX object -/
 def renderSeq : PipeState → List (Nat × Nat) → List Nat
@@ -322,7 +359,13 @@ def handle (j : Json) : Json :=
       | some flow =>
         match latexRun stubConv ow vb w [] flow with
         | .error e => ofExc e
-        | .ok (w', vs) => ofResult watch w.clock w' vs
+        | .ok (w', vs) =>
+          -- the reference without a pool (`latexRunSeq`, the other side of `latexRun_yields_iff_ok`)
+          let seqOk := match latexRunSeq stubConv ow w flow with
+            | .ok (w2, vs2) => worldAgree (watch ++ pathsOfLog w'.log) w' w2 && decide (vs.length = vs2.length) &&
+                vs.all (fun v => vs2.any fun v2 => dataPath v == dataPath v2 && decide (v.out = v2.out))
+            | .error _ => false
+          (ofResult watch w.clock w' vs).setObjVal! "seq_agrees" seqOk
     | _, _, _, _ => err "bad latexrun args"
   | some "png" =>
     match bool? (getD j "overwrite"), str? (getD j "format"), world? (getD j "world"), data? (getD j "data"),
@@ -348,6 +391,27 @@ def handle (j : Json) : Json :=
         | none => none) with
     | some fs => Json.mkObj [("r", ofList ofNat (renderSeq {} fs))]
     | none => err "bad render2 args"
+  | some "wdir" =>
+    match tpl? (getD j "dir"), (arr? (getD j "statics")).bind (fun a => a.toList.mapM optStr?), outCtx? (getD j "out") with
+    | some t, some statics, some o =>
+      let dir := statics.foldl (fun cur st => writeDirSet t st cur) (writeDirInit t)
+      match wMakeFilename dir "output" o with
+      | .error e => ofExc e
+      | .ok (a, b, c, p) => Json.mkObj [("dir", dir), ("r", ofList Json.str [a, b, c, p])]
+    | _, _, _ => err "bad wdir args"
+  | some "seltpl" =>
+    let on (x : Json) : Option (Option Nat) := if x.isNull then some none else (nat? x).map some
+    match on (getD j "ctx"), on (getD j "default") with
+    | some c, some d =>
+      match selectTemplate c d with
+      | .error e => ofExc e
+      | .ok t => Json.mkObj [("tpl", ofNat t)]
+    | _, _ => err "bad seltpl args"
+  | some "mgmulti" =>
+    match outCtx? (getD j "ctx"), (arr? (getD j "cols")).bind (fun a => a.toList.mapM fun c =>
+        (arr? c).bind fun b => b.toList.mapM outCtx?), outCtx? (getD j "old") with
+    | some o, some cols, some old => Json.mkObj [("outs", ofList ofOutCtx (mapGroupOuts o cols old))]
+    | _, _, _ => err "bad mgmulti args"
   | some "mglen" =>
     match nat? (getD j "ndata"), nat? (getD j "ngroup") with
     | some a, some b =>
@@ -366,8 +430,18 @@ def handle (j : Json) : Json :=
   | some "hist" =>
     match arr? (getD j "steps") with
     | some steps =>
-      match histLoop ((bool? (getD j "reuse")).getD false) watch {} World.init steps.toList [] with
-      | some rs => Json.mkObj [("runs", Json.arr rs.toArray)]
+      let reuse := (bool? (getD j "reuse")).getD false
+      match histLoop reuse watch {} World.init steps.toList [] with
+      | some (rs, fin) =>
+        -- the history layer of the theorems, executed: `oexec` (one object for all runs) and `exec` of
+        -- `freshHistory` (new objects for every run) must end in the file system of the run-by-run loop
+        let agree : Json := match fin, ostepsOf 0 steps.toList with
+          | some (w, paths), some os =>
+            let wo := (oexec stubConv ⟨World.init, {}, ⟨0, 0⟩⟩ os).w
+            let wf := exec stubConv World.init (freshHistory 0 os)
+            Json.bool ((!reuse || fsAgree paths w wo) && fsAgree paths w wf && (reuse || fsAgree paths w wf))
+          | _, _ => Json.null
+        Json.mkObj [("runs", Json.arr rs.toArray), ("history_layer_agrees", agree)]
       | none => err "bad hist step"
     | none => err "bad hist args"
   | _ => err "unknown op"
